@@ -14,12 +14,12 @@ Require Import MV.Lower.Lang MV.Lower.LangProofs MV.Lower.Passes MV.Lower.BreakP
 
 Theorem break_lowering_correct : forall b s d tr o s' d',
   run_block b s d tr o s' d' -> plain_block b = true -> o <> OBrk ->
-  forall sl, exists sl', run_block (fst (fst (brk_block 2 0 b))) sl d tr o sl' d'.
+  forall sl, exists sl', run_block (fst (fst (brk_block 5 0 b))) sl d tr o sl' d'.
 Proof. exact break_lowering_correct_lemma. Qed.
 
 Corollary break_lowering_correct_exec : forall n b s d tr o s' d',
   exec_block n b s d = (tr, o, s', d') -> done o -> plain_block b = true -> o <> OBrk ->
-  forall sl, exists sl', run_block (fst (fst (brk_block 2 0 b))) sl d tr o sl' d'.
+  forall sl, exists sl', run_block (fst (fst (brk_block 5 0 b))) sl d tr o sl' d'.
 Proof. intros n b s d tr o s' d' H Ho. apply (break_lowering_correct b s d tr o s' d'). apply (proj2 (exec_sound n)); assumption. Qed.
 
 (* non-vacuity: while t1: a2; if t3: break; a4  else: a5 -- run with the break taken on the 2nd iteration *)
@@ -27,7 +27,7 @@ Definition ex_b : block :=
   BCons (SWhile (CUser 1) (BCons (SAtom 2) (BCons (SIf (CUser 3) (BCons SBreak BNil) BNil) (BCons (SAtom 4) BNil))) (BCons (SAtom 5) BNil)) BNil.
 Example ex_run : exec_block 30 ex_b (fun _ => false) [1; 0; 1; 1] = ([1; 2; 3; 4; 1; 2; 3], ONormal, (fun _ => false), []).
 Proof. vm_compute. reflexivity. Qed.
-Example ex_lowered_has_flag : fst (fst (brk_block 2 0 ex_b)) =
+Example ex_lowered_has_flag : fst (fst (brk_block 5 0 ex_b)) =
   BCons (SSet 0 false) (BCons (SWhile (CAndNot 0 (CUser 1))
      (BCons (SAtom 2) (BCons (SIf (CUser 3) (BCons (SSet 0 true) (BCons SContinue BNil)) BNil) (BCons (SAtom 4) BNil)))
      (BCons (SIf (CNot 0) (BCons (SAtom 5) BNil) BNil) BNil)) BNil).
